@@ -417,4 +417,11 @@ def explore(run, tier):
                         v = good[:o] + bytes([byte]) + good[o + 1:]
                         for tool in ('mci_ipm_to_csv', 'mideu'):
                             cases.append({'k': 'cli', 'cfg': 'pkg', 'codec': codec, 'b': blocked, 'data': v.hex(), 'tool': tool})
+                # the four MTI bytes replaced by characters that are NUMERIC to str.isnumeric() but no digits to int()
+                # (superscripts, fractions — x'B2 B3 B9 BC BD BE' in latin-1 and their EBCDIC positions), and by zeros
+                for repl in (b'\xb2\xb3\xb9\xbc', b'\xbd\xbe\xb2\xb2', b'\xea\xfa\xda\xb7', b'0000', b'\xf0\xf0\xf0\xf0',
+                             b'\xb2000', b'\xf0\xf0\xf0\xea'):
+                    v = good[:base + 4] + repl + good[base + 8:]
+                    for tool in ('mci_ipm_to_csv', 'mideu'):
+                        cases.append({'k': 'cli', 'cfg': 'pkg', 'codec': codec, 'b': blocked, 'data': v.hex(), 'tool': tool})
     run.correspond(__name__, cases, use_model=run.use_model, chunk=200)
